@@ -6,7 +6,7 @@ export GOFLAGS=-mod=mod GOPROXY=off GOSUMDB=off GOTOOLCHAIN=local
 id=$1; wt=$2; sub=$3; pkg=$4; rx=$5; shift 5
 out=/tmp/seed-out/${id%%-*}; [ -d /tmp/seed-out/$id ] && out=/tmp/seed-out/$id
 cd $wt || exit 3
-suite() { (cd $wt && go test -vet=off -count=1 ./... 2>&1 | grep -E "^(ok|FAIL|---)" | sed -E 's/[0-9.]+s$//' | sort); (cd $wt/libs && go test -vet=off -count=1 ./... 2>&1 | grep -E "^(ok|FAIL|---)" | sed -E 's/[0-9.]+s$//;s/\(cached\)//' | sort); }
+suite() { (cd $wt && go test -vet=off -count=1 ./... 2>&1 | grep -E "^(ok|FAIL|---)" | sed -E 's/[0-9.]+s$//;s/ \([0-9.]+s\)$//' | sort); (cd $wt/libs && go test -vet=off -count=1 ./... 2>&1 | grep -E "^(ok|FAIL|---)" | sed -E 's/[0-9.]+s$//;s/\(cached\)//;s/ \([0-9.]+s\)$//' | sort); }
 go build ./... || { echo BUILD-FAIL; exit 1; }
 # move demo files aside for the suite comparison
 mkdir -p /tmp/seed-demo-$id; for f in "$@"; do mkdir -p /tmp/seed-demo-$id/$(dirname $f); mv $wt/$f /tmp/seed-demo-$id/$f; done
